@@ -586,6 +586,12 @@ func ArbitraryStream(r *core.Rand, maxAnnounce uint32) ([]byte, string) {
 		have := 0
 		if ann > 1 {
 			have = r.Intn(int(min32(ann, 200)))
+			if r.P(1, 3) {
+				// a good part of the body is there (more than one pooled
+				// buffer, or right at its size): the receiver has grown its
+				// buffer by then and may be tempted to trust the rest
+				have = int(min32(ann-1, uint32(core.Pick(r, []int{PoolBuf - 1, PoolBuf, PoolBuf + 1, 2 * PoolBuf, 70000, 200000}))))
+			}
 		}
 		s = Header(s, ann)
 		b, _ := ArbitraryInput(r, true)
@@ -594,6 +600,9 @@ func ArbitraryStream(r *core.Rand, maxAnnounce uint32) ([]byte, string) {
 		}
 		s = append(s, b[:have]...)
 		recipe[fmt.Sprintf("short-body-2^%d", bits(ann))] = true
+		if have >= PoolBuf {
+			recipe["short-body-with-a-pool-buffer-or-more-present"] = true
+		}
 	}
 	ks := make([]string, 0, len(recipe))
 	for k := range recipe {
